@@ -92,6 +92,11 @@ CHECKS = {
          "Held on every explored case: 30 hand-picked traversals of all result types and result sizes around the pool/buffer boundaries plus 80 / 1500 random traversals, each with every resume split; a 12-job / 17-query search scenario; a restart-then-delete scenario (listed, status, readable, resumable, then gone incl. files).",
          "Engine vs engine (no model) for stored rows and resume; the 10-line prefix model for search. Completion is awaited by bounded polling (inconclusive if exceeded).",
          "5/C11"),
+ "C07": ("exploration",
+         "termination and leak monitor with state-based certificates: traversals with closed-form answers run on graphs sized around and beyond every internal buffer capacity in worker processes; closure of the result stream, the closed-form row count, a row-count divergence bound, and (after completion, cancellation or a satisfied limit) the return of engine goroutines and temporary stores to the baseline are checked; a run that does not close is judged by a goroutine-dump deadlock certificate, never by the clock",
+         "Held on every explored (shape, size, traversal, cancellation point): 13 sizes from 0 to 12000, every single step and (quick: a sixth of) every ordered pair of 16 fan-out/fan-in steps, star/pairs traversals, limit/range mid-stream, cancellation after 0/1/100/5001 rows. 'Always finishes' is restated as bounded progress on the explored sizes.",
+         "Closed forms are computed by 30 lines in c07.go; the deadlock certifier is fw/worker.go. Inconclusive (watchdog without certificate) is reported separately.",
+         "5/C07"),
 }
 
 NOT_YET = "check not built yet in this session (design in DESIGN.md section 5); claimed once the monitor exists and is silent on the unchanged tree"
